@@ -35,6 +35,9 @@ CHECKS = {
  "C04": dict(cat="exploration", technique="exhaustive enumeration of a shape grammar (filtered by check_invariants) x hostile byte-string vectors x 17 modes under catch_unwind in supervised worker processes (panic / process death / hang isolation), plus run-history comparison",
    text="About 8500 definitions (every leaf under every wrapper and wrapper pair, every seq/alt/adjacent combination, rotating option-level configurations with styled non-ASCII texts) are run on every single hostile item and every pair of the sharpest ones in parse mode, completion revisions 0/1/7/8/9 with and without an application name, completion marker first/last, and through render_markdown/html/manpage; any panic, process exit, abort or stall is a violation; outcomes must be identical on a used object and on a fresh one in reverse order.",
    note="Hang = a worker makes no progress for 120 s (quick) / 600 s (thorough); polynomial slowness on 600-character items is not a hang. Known finding F9 (hidden adjacent group without a required first item).", ref="4/C04"),
+ "C06": dict(cat="exploration", technique="exhaustive enumeration of wrapper stacks x contexts x accepted vectors (token tree) x every invalid replacement of every typed value, and removal of the item; outcomes and message text checked on the real parser",
+   text="A typed u32 primitive (FromStr, .parse, guard, positional, env-backed) under every type-correct wrapper stack of depth <=3 in four contexts; every accepted vector gets each typed value replaced by six kinds of invalid text (must fail on stderr carrying the conversion/guard message) and the item removed (value iff the stack defaults).",
+   note="Nothing is demanded under catch; message text is not demanded inside an alternative (as the property says).", ref="4/C06"),
 }
 NOT_YET = {}
 def main():
